@@ -117,6 +117,13 @@ CHECKS = {
         note="Interpreter-only: fidelity of the Go interpreter is validated only against the reference/Python on extreme values; fails closed on constructs outside its subset. `Smallest covering type` is checked only in the too-small direction.",
         design="6/C19", engine="gosym",
     ),
+    "C10": dict(
+        category="other",
+        technique="Python AST of the real formatter methods -> z3 sequence terms; pairwise injectivity / import-target equality queries; sat models compiled and confirmed by gcc / CPython",
+        text="Kernel with a value quantifier: (1) the C name templates (array/message/alias processors and JSON formatters, field-descriptor initialiser, Encode/Decode/Json, user typedef names) are read from the current sources and translated to z3 string terms; for every pair z3 decides whether two distinct sources can yield the same identifier (identifiers <= 8 chars, numbers 1..255); (2) the import statement of C and Python names exactly the file the compiler generates, for every proto name and file stem. Each sat model becomes a schema that is compiled with the real compiler and gcc/CPython before it is reported.",
+        note="Only these two clauses are claimed; compiles-as-C / C++ inclusion / Python import / Go well-formedness / declaration order / -F / reserved words are value-independent observations of single artefacts and are not claimed (they are exercised incidentally as preconditions of the other checks). Known findings D9, D9b (template pairs as cause keys).",
+        design="6/C10", engine="tmplsym",
+    ),
 }
 
 NOT_APPLICABLE = {
@@ -160,6 +167,7 @@ def main():
             "add_only": True,
         },
         "engines": [
+            {"name": "tmplsym", "path": "vlib/tmplsym.py", "serves_properties": ["C10"], "kind_free_text": "translator from the ast of concatenation-template formatter methods to z3 sequence terms"},
             {"name": "gosym", "path": "vlib/gosym.py", "serves_properties": ["C04", "C05", "C14", "C19"], "kind_free_text": "tree-walking interpreter for the Go subset of lib/go/bitproto.go and generated Go (typed values, wrap-around arithmetic as z3 bit-vectors, Go shift semantics, interface dispatch, defer); no Go toolchain exists here"},
             {"name": "llsym", "path": "vlib/llsym.py", "serves_properties": ["C03", "C04", "C05", "C06", "C07", "C12", "C14"], "kind_free_text": "symbolic interpreter for clang-14 textual LLVM IR (z3 bit-vectors, concrete pointers, bounds-checked regions, if-conversion, DART forking), x86-64 and s390x data layouts"},
             {"name": "pysym", "path": "vlib/pysym.py", "serves_properties": ["C01", "C02", "C05", "C07", "C08", "C09", "C11", "C12", "C13", "C14", "C17", "C20"], "kind_free_text": "DART-style symbolic execution of the real Python sources with z3 proxies (BV-192 / Int)"},
